@@ -193,7 +193,7 @@ def run_model(cases_path, out_path, shards=None):
         inp, outp = "%s%d.in" % (base, i), "%s%d.out" % (base, i)
         with open(inp, "w") as f:
             f.write("\n".join(part) + "\n")
-        procs.append((subprocess.Popen(["bash", "-c", "ulimit -v 8000000; ulimit -s unlimited; exec timeout 3000 %s %s %s" % (mr, inp, outp)]), inp, outp, len(part), i))
+        procs.append((subprocess.Popen(["bash", "-c", "ulimit -v 8000000; ulimit -s unlimited; exec timeout 5400 %s %s %s" % (mr, inp, outp)]), inp, outp, len(part), i))
     results = [None] * n
     ok = True
     for p, inp, outp, cnt, i in procs:
